@@ -215,11 +215,12 @@ def _pow2(k: int):
 class SymNum:
     """Python int (z3 Int sort) or float-as-real (z3 Real sort)."""
 
-    __slots__ = ("t", "lz")
+    __slots__ = ("t", "lz", "bits")
 
-    def __init__(self, t, lz=0):
+    def __init__(self, t, lz=0, bits=None):
         self.t = t
         self.lz = lz   # number of low bits known to be zero (set by `<< k`), for disjoint `|`
+        self.bits = bits   # tuple of z3 Bools (LSB first) when the value is known bit by bit
 
     # -- sort ---------------------------------------------------------------
     @property
@@ -418,6 +419,8 @@ class SymNum:
             return SymNum._floordiv(self, pow2_sym(o))
         if k < 0:
             raise ValueError("negative shift count")
+        if self.bits is not None:
+            return _from_bits(list(self.bits[k:]))
         return SymNum(self.t / _pow2(k))
 
     def __rrshift__(self, o):
@@ -428,6 +431,8 @@ class SymNum:
         self._need_int()
         m = _const_int(o)
         if m is not None:
+            if self.bits is not None and m >= 0:
+                return _from_bits([b if (m >> i) & 1 else z3.BoolVal(False) for i, b in enumerate(self.bits)])
             return SymNum(_and_const(self.t, m))
         o = _lift(o)
         if o is NotImplemented:
@@ -644,10 +649,48 @@ def _bitop_sym(a: SymNum, b: SymNum, op: str, width: int = 32):
             return SymNum(z3.IntVal(0))
     c.require(z3.And(a.t >= 0, a.t < _pow2(width), b.t >= 0, b.t < _pow2(width)),
               "bit-op operands within 0..2**%d" % width)
-    bva = z3.Int2BV(a.t, width)
-    bvb = z3.Int2BV(b.t, width)
-    r = {"and": bva & bvb, "or": bva | bvb, "xor": bva ^ bvb}[op]
-    return SymNum(z3.BV2Int(r, is_signed=False))
+    w = None
+    for cand in (8, 16, 32):
+        if c.proves(z3.And(a.t >= 0, a.t < _pow2(cand), b.t >= 0, b.t < _pow2(cand))):
+            w = cand
+            break
+    if w is None:
+        c.require(z3.BoolVal(False), "bit-op operands within 0..2**32")
+    ba, bb = _bits_of(a, w), _bits_of(b, w)
+    f = {"and": z3.And, "or": z3.Or, "xor": z3.Xor}[op]
+    return _from_bits([z3.simplify(f(x, y)) for x, y in zip(ba, bb)])
+
+
+def _from_bits(bits):
+    t = z3.IntVal(0)
+    for i, b in enumerate(bits):
+        t = t + z3.If(b, z3.IntVal(1 << i), z3.IntVal(0))
+    return SymNum(z3.simplify(t), bits=tuple(bits))
+
+
+def _bits_of(x: SymNum, w: int):
+    """Bits (LSB first) of a value proved to lie in 0..2**w: known bits, or fresh Bools
+    tied to the value by one equation (the binary representation is unique)."""
+    if x.bits is not None:
+        bs = list(x.bits[:w])
+        return bs + [z3.BoolVal(False)] * (w - len(bs))
+    xc = x.concrete()
+    if xc is not None:
+        return [z3.BoolVal(bool((xc >> i) & 1)) for i in range(w)]
+    c = ctx()
+    cache = getattr(c, "_bitcache", None)
+    if cache is None:
+        cache = c._bitcache = {}
+    key = (z3.simplify(x.t).get_id(), w)
+    if key in cache:
+        return cache[key]
+    bs = [c.fresh_bool("bit").t for _ in range(w)]
+    t = z3.IntVal(0)
+    for i, b in enumerate(bs):
+        t = t + z3.If(b, z3.IntVal(1 << i), z3.IntVal(0))
+    c.assume_term(t == x.t)
+    cache[key] = bs
+    return bs
 
 
 def pow2_sym(k: SymNum, limit: int = 64):
